@@ -2,7 +2,7 @@
 //! where `verif_stats().footprint` is the allocator's own figure of what it holds from the OS.
 //!
 //!   c04 fp <seed> <reps> <shape> <order>
-//!   c04 fp <seed> <reps> steady <chunk> <mix> <policy> <primer> <delta>     (bounded live set, see workload.rs)
+//!   c04 fp <seed> <reps> steady <chunk> <mix> <policy> <primer> <delta> [align]   (bounded live set, see workload.rs)
 //! output (same line format as alloc_probe, unit = 4 KiB pages):
 //!   B 0 / R <index> <footprint pages> <failed calls> <VmSize pages above baseline> / S <peak live> <churned> <calls>
 //! The workload is bracketed by sysmon BEGIN/END markers (scenario 4): under `sysmon --inject 4:*:1:25:...` the
@@ -50,6 +50,10 @@ fn main() {
         vh::inconclusive("bad shape/order");
         return;
     };
+    if shape == Shape::VecAligned {
+        vh::inconclusive("vecalign needs the global allocator: alloc_probe only");
+        return;
+    }
     // a crash in here can only come from the allocator (the workload touches its own blocks only)
     let plan = plan(shape, a.seed, 1);
     let mut slots: Vec<Slot> = Vec::with_capacity(plan.len() + 16);
@@ -83,15 +87,16 @@ fn steady(a: &vh::Args) {
     let policy = order_by_name(g(3));
     let primer = STEADY_PRIMERS.iter().position(|p| *p == g(4));
     let delta: isize = g(5).parse().unwrap_or(0);
+    let align: usize = g(6).parse().unwrap_or(8).max(8);
     let (Some(policy), Some(primer)) = (policy, primer) else {
         vh::inconclusive("bad steady arguments");
         return;
     };
-    if chunk < 32 || chunk % 16 != 0 {
+    if chunk < 32 || chunk % 16 != 0 || !align.is_power_of_two() {
         vh::inconclusive("bad steady chunk");
         return;
     }
-    let p = Steady { chunk, mix, policy, primer: primer as u8, delta, live: steady_live(chunk), steps: steady_steps(chunk) };
+    let p = Steady { chunk, mix, align, policy, primer: primer as u8, delta, live: steady_live(chunk), steps: steady_steps(chunk) };
     let mut slots: Vec<Slot> = Vec::with_capacity(p.live + 16);
     let mut extra: Vec<Slot> = Vec::with_capacity(STEADY_PRIMER_TRIES + 2);
     let mut heap = Private(Dlmalloc::new());
